@@ -5,6 +5,7 @@ import builtins as _bi
 import contextlib
 import enum
 import functools
+import operator
 import types
 
 import z3
@@ -1213,6 +1214,18 @@ def call_builtin(ip, st, f, args, kwargs):
     r = ip.task.call_real(ip, st, f, args, kwargs)
     if r is not NotImplemented:
         return r
+    if isinstance(f, operator.attrgetter) and len(args) == 1 and not kwargs:
+        # operator.attrgetter('a.b', ...)(obj): CPython reads the (dotted) attributes of obj, one value for one name,
+        # a tuple for several.  The names are recovered from the object's pickle form (attrgetter, names).
+        names = f.__reduce__()[1]  # (cross-check: static check `engine-rules-agree-with-cpython`, contracts/C19_gridflow.py)
+
+        def read(name):
+            o = args[0]
+            for part in name.split("."):
+                o = ip.getattr(st, o, part)
+            return o
+
+        return read(names[0]) if len(names) == 1 else tuple(read(n) for n in names)
     if isinstance(f, type) and issubclass(f, BaseException):
         return SExc(f, args)
     if isinstance(f, tuple) and f and f[0] == "wraps":
